@@ -214,6 +214,13 @@ class Source:
             f = self.funcs.get((mod, c.name + "." + meth))
             if f is not None:
                 return f
+            # class-body alias:  name = other_method  (the same function object under another name)
+            for st in c.body:
+                if isinstance(st, ast.Assign) and isinstance(st.value, ast.Name) and \
+                        any(isinstance(t, ast.Name) and t.id == meth for t in st.targets):
+                    g = self.funcs.get((mod, c.name + "." + st.value.id))
+                    if g is not None:
+                        return g
         return None
 
     # ---- names ----------------------------------------------------------------------
